@@ -21,7 +21,8 @@ JaqalError <-> "jaqal", AssertionError <-> "assert"; any other exception is a fi
 
 Independent checks made on the Python side for every successful run:
   * the lock-step schedule (gate id, step), computed on the real objects, is the same multiset
-    before and after;  * the (depth, iterations) list of subcircuit blocks is unchanged;
+    before and after, and the gates of each step keep their program order; every subcircuit block
+    keeps its (iterations, start step, duration);  * the (depth, iterations) list of subcircuit blocks is unchanged;
   * the input circuit was not mutated;  * header data (registers, constants, macros, usepulses,
     native_gates) of the new circuit equal those of the input.
 """
@@ -219,6 +220,35 @@ def body_times(body):
     return Counter(out)
 
 
+def body_steps(body):
+    """step -> gate executions of that step in program order"""
+    out = []
+    times(0, ("b", False, False, 1, body), out)
+    d = {}
+    for g, t in out:
+        d.setdefault(t, []).append(g)
+    return d
+
+
+def slots(t0, t, out):
+    """(iters, start, duration) of the subcircuit blocks (first iteration of enclosing loops)"""
+    if t[0] == "l":
+        slots(t0, t[2], out)
+    elif t[0] == "b":
+        if t[2]:
+            out.append((t[3], t0, dur(t)))
+        for k in t[4]:
+            slots(t0, k, out)
+            if not t[1]:
+                t0 += dur(k)
+
+
+def body_slots(body):
+    out = []
+    slots(0, ("b", False, False, 1, body), out)
+    return out
+
+
 def frame(depth, t, out):
     if t[0] == "l":
         frame(depth, t[2], out)
@@ -366,6 +396,12 @@ def main():
             out = real["ok"]
             if body_times(out) != body_times(body):
                 print(f"FINDING(schedule changed) [{route}] {desc}\n   out: {out}")
+                bad += 1
+            if body_steps(out) != body_steps(body):
+                print(f"FINDING(order inside a step changed) [{route}] {desc}\n   out: {out}")
+                bad += 1
+            if body_slots(out) != body_slots(body):
+                print(f"FINDING(subcircuit time slot changed) [{route}] {desc}\n   out: {out}")
                 bad += 1
             if body_frame(out) != body_frame(body):
                 print(f"FINDING(subcircuit annotations changed) [{route}] {desc}\n   out: {out}")
